@@ -17,6 +17,8 @@ HEX_UNIVERSES = {
     "HV": ["", "11" * 20, "11" * 33 + "12", "11" * 33 + "13"],
     # two 28-byte keys differing in the first nibble: leaves with a 55-nibble path (node size 31/32 with a one-byte value)
     "HT": ["", "1" * 56, "2" + "1" * 55],
+    # 130-byte keys: leaf paths longer than 256 nibbles, extensions longer than 128 bytes
+    "HXXL": ["", "11" * 129 + "12", "11" * 129 + "13", "21" * 130],
     # a key that is a proper prefix of two longer keys (branch with a value above two children)
     "HP3": ["01", "0123", "0145"],
     "HW4": ["", "00", "70", "f0"],
